@@ -121,6 +121,9 @@ fn report(acc: &mut Acc, clause: &str, x: &[u8], xy: &[u8], vx: V, vxy: V, start
 /// Judge string `s` whose proper prefixes have verdicts `stack[k]` for prefix length k.
 fn judge_against_prefixes(acc: &mut Acc, s: &[u8], vs: V, stack: &[V], first: usize, start_name: &str, iface: &str) {
     acc.res.evaluations += 1;
+    if acc.res.samples.len() < 2 && s.len() >= 4 && matches!(vs, V::Ok(..)) {
+        acc.res.sample(|| J::obj(vec![("start", J::s(start_name)), ("x", J::s(esc(s))), ("verdict", J::s(format!("{:?}", vs))), ("prefix_verdicts", J::strs(stack.iter().skip(1).map(|v| format!("{:?}", v))))]));
+    }
     match vs {
         V::Ok(c, d) => {
             acc.ok += 1;
@@ -375,10 +378,12 @@ pub fn run(ctx: &Ctx) -> PropResult {
     res.cov("verdict_incomplete", inc);
     res.cov("verdict_error", err);
     res.cov("terminated_rejected_prefixes_with_continuations", fe);
-    res.samples = vec![
+    res.samples.truncate(5);
+    let described: Vec<J> = vec![
         J::obj(vec![("x", J::s("A \"\\n")), ("xy", J::s("A \"\\n\"\\n")), ("start", J::s("root"))]),
         J::obj(vec![("x", J::s("B;")), ("xy", J::s("B;#H1\\n")), ("start", J::s("A"))]),
     ];
+    res.samples.extend(described.into_iter().take(1));
     res.assumptions = vec!["equality of calls is judged on (node, path node, query flag, terminated flag, argument kinds and texts)".into()];
     if ok == 0 || inc == 0 || err == 0 || okc == 0 {
         res.inconclusive = Some("some verdict class was never observed".into());
